@@ -294,7 +294,7 @@ fn run_case(
     case_id: usize,
     nw: usize,
     sends: usize,
-    sched: &mut dyn FnMut(&Case) -> Option<usize>,
+    sched: &mut dyn FnMut(&Case) -> Option<(usize, bool)>,
     expect: Option<&Vec<Value>>,
     terminal: bool,
     tr: &mut Trace,
@@ -305,6 +305,7 @@ fn run_case(
     let (mut steps, mut ticks) = (0usize, 0usize);
     let mut drift: Option<Value> = None;
     let mut dead = false;
+    let mut skipped = 0usize;
     let mut exec = |case: &mut Case, t: usize, tr: &mut Trace, steps: &mut usize, ticks: &mut usize| -> bool {
         let ev = case.step_event(t);
         if ev["e"] == "panic" {
@@ -335,15 +336,23 @@ fn run_case(
     // scheduled part
     while !dead && steps < budget {
         match sched(&case) {
-            Some(t) => {
+            Some((t, spurious_ok)) => {
                 if t >= case.n || case.at(t).is_none() {
                     continue; // thread already finished: entry skipped
+                }
+                // the model considers this poll of the runner due, but the real runner task has
+                // not been woken: an executor would not poll it -- skip, so that a lost wake-up
+                // is not masked by the replay
+                if t == 0 && !spurious_ok && !case.runner_due() {
+                    skipped += 1;
+                    continue;
                 }
                 dead = !exec(&mut case, t, tr, &mut steps, &mut ticks);
             }
             None => break,
         }
     }
+
     // run to quiescence: only due steps, wakers first (round robin), then the runner
     let mut next = 1usize;
     while !dead {
@@ -362,6 +371,9 @@ fn run_case(
             None => break,
         }
     }
+    if skipped > 0 && drift.is_none() {
+        drift = Some(json!({"case":case_id,"skipped_runner_polls_not_due_in_the_real_code":skipped}));
+    }
     case.finish();
     Out { steps, ticks, drift }
 }
@@ -379,7 +391,10 @@ fn main() {
                 let nw = c["nw"].as_u64().unwrap() as usize;
                 let sends = c["sends"].as_u64().unwrap() as usize;
                 let exp: Vec<Value> = c["steps"].as_array().cloned().unwrap_or_default();
-                let order: Vec<usize> = exp.iter().map(|s| s["thr"].as_u64().unwrap() as usize).collect();
+                let order: Vec<(usize, bool)> = exp
+                    .iter()
+                    .map(|s| (s["thr"].as_u64().unwrap() as usize, s["sp"].as_bool().unwrap_or(true)))
+                    .collect();
                 let mut k = 0usize;
                 let mut sched = |_c: &Case| {
                     let r = order.get(k).copied();
@@ -426,15 +441,15 @@ fn main() {
                     let due = c.runner_due();
                     let parked = !due && c.at(0) == Some("rt_idle");
                     if parked && r2.below(100) < spur_pct {
-                        return Some(0);
+                        return Some((0, true));
                     }
                     if due && (wk.is_empty() || r2.below(100) < runner_pct) {
-                        return Some(0);
+                        return Some((0, false));
                     }
                     if wk.is_empty() {
                         return None;
                     }
-                    Some(wk[r2.below(wk.len() as u64) as usize])
+                    Some((wk[r2.below(wk.len() as u64) as usize], false))
                 };
                 let o = run_case(i + 1, nw, sends, &mut sched, None, false, &mut tr);
                 cases += 1;
